@@ -81,7 +81,7 @@ class RefGraph:
 
     def signature(self):
         nodes = {k: v['kind'] for k, v in self.nodes.items()}
-        lines = sorted(tuple(l) for l in self.lines.values())
+        lines = sorted((tuple(l) for l in self.lines.values()), key=repr)      # (names may be of any hashable type: order by their representation)
         return nodes, lines, list(self.io)
 
     @staticmethod
@@ -99,7 +99,7 @@ class RefGraph:
 
 def real_signature(c):
     nodes = {(n.name, n.kind == '__fork__'): n.kind for n in c.nodes}
-    lines = sorted(((l.driver.name, l.driver.kind == '__fork__'), l.driver_pin, (l.reader.name, l.reader.kind == '__fork__'), l.reader_pin) for l in c.lines)
+    lines = sorted((((l.driver.name, l.driver.kind == '__fork__'), l.driver_pin, (l.reader.name, l.reader.kind == '__fork__'), l.reader_pin) for l in c.lines), key=repr)
     io = [(n.name, n.kind == '__fork__') for n in c.io_nodes]
     return nodes, lines, io
 
@@ -175,10 +175,10 @@ def check_iso(c, model, res, step, what):
     rn, rl, rio = real_signature(c)
     mn, ml, mio = model.signature()
     if rn != mn:
-        d = sorted(set(rn.items()) ^ set(mn.items()))[:4]
+        d = sorted(set(rn.items()) ^ set(mn.items()), key=repr)[:4]
         res.violate('graph-model-mismatch', f'after step {step} ({what}): node sets differ: {d}'); return False
     if rl != ml:
-        d = sorted(set(rl) ^ set(ml))[:4]
+        d = sorted(set(rl) ^ set(ml), key=repr)[:4]
         res.violate('graph-model-mismatch', f'after step {step} ({what}): connectivity differs from the reference model: {d}'); return False
     if rio != mio:
         res.violate('graph-model-mismatch', f'after step {step} ({what}): port list {rio[:6]} vs reference {mio[:6]}'); return False
